@@ -565,3 +565,101 @@ func (g *Gen) SparseUnique() (ops []Op, unique Op, plain Op) {
 	}
 	return ops, unique, plain
 }
+
+// PartialTransition is a directed history around ONE partial index whose filter looks at a field that is not an
+// index key: documents are moved into and out of the index filter by updates that leave the key unchanged, and
+// queried with filters that pin the filter field (so that the planner may use the partial index). Added after
+// the seeded change c11a (Swap skipping re-indexing when the key values are unchanged) slipped past the
+// random generator. Since the seeded changes c10g / c11g the index is unique in a third of the histories (key
+// values collide across the two sides of the filter, where uniqueness does not apply), documents outside the
+// filter are updated in an unrelated field and deleted by id, and new documents arrive after the index exists.
+// `at` is the position (before ops[at]) at which the index is to be created.
+func (g *Gen) PartialTransition() (ops []Op, idx Op, at int) {
+	rng := g.R
+	fields := []string{"a", "b"}
+	kf := lib.Pick(rng, fields)
+	ff := "a"
+	if kf == "a" {
+		ff = "b"
+	}
+	iv := func(n int) Value { return IntV(n) }
+	v := rng.Range(1, 3)
+	idx = Op{Kind: "idx", Keys: []string{kf}, Filter: NewMap(S(ff), iv(v)), Unique: rng.Chance(1, 3)}
+	if rng.Chance(1, 4) {
+		idx.Keys = []string{kf, "n.x"}
+	}
+	if idx.Unique {
+		g.hit("transition:unique-partial")
+	}
+	n := rng.Range(2, 5)
+	doc := func(id int) Map {
+		fv := rng.Range(0, 3)
+		d := NewMap(S("id"), iv(id), S(kf), iv(rng.Range(0, 2)))
+		if rng.Chance(3, 4) {
+			d = d.Set(S(ff), iv(fv))
+		}
+		return d
+	}
+	for id := 1; id <= n; id++ {
+		ops = append(ops, Op{Kind: "ins", Docs: []Map{doc(id)}})
+	}
+	probe := func() {
+		var f Map
+		switch rng.Intn(4) {
+		case 0:
+			f = NewMap(S(ff), iv(v), S(kf), iv(rng.Range(0, 2)))
+		case 1:
+			f = NewMap(S(ff), iv(v), S(kf), NewMap(S("$gte"), iv(rng.Range(0, 2))))
+		case 2:
+			f = NewMap(S(ff), iv(v), S(kf), NewMap(S("$lte"), iv(rng.Range(0, 2))))
+		default:
+			f = NewMap(S(ff), iv(v))
+		}
+		ops = append(ops, Op{Kind: "find", Filter: f})
+	}
+	steps := rng.Range(4, 12)
+	for i := 0; i < steps; i++ {
+		id := rng.Range(1, n)
+		byID := NewMap(S("id"), iv(id))
+		switch rng.Weighted([]int{5, 3, 2, 2, 1, 2, 2, 1}) {
+		case 0: // into the filter, key untouched
+			ops = append(ops, Op{Kind: "upd", Filter: byID, Update: NewMap(S("$set"), NewMap(S(ff), iv(v)))})
+			g.hit("transition:into-filter")
+		case 1: // out of the filter, key untouched
+			ops = append(ops, Op{Kind: "upd", Filter: byID, Update: NewMap(S("$set"), NewMap(S(ff), iv((v+1)%4)))})
+			g.hit("transition:out-of-filter")
+		case 2:
+			ops = append(ops, Op{Kind: "upd", Filter: byID, Update: NewMap(S("$unset"), NewMap(S(ff), True()))})
+			g.hit("transition:unset-filter-field")
+		case 3: // key moves, filter field untouched
+			ops = append(ops, Op{Kind: "upd", Filter: byID, Update: NewMap(S("$set"), NewMap(S(kf), iv(rng.Range(0, 2))))})
+			g.hit("transition:key-moves")
+		case 4: // update / delete THROUGH the partial index
+			f := NewMap(S(ff), iv(v), S(kf), iv(rng.Range(0, 2)))
+			if rng.Bool() {
+				ops = append(ops, Op{Kind: "upd", Filter: f, Update: NewMap(S("$set"), NewMap(S("n"), iv(rng.Range(0, 3))))})
+			} else {
+				ops = append(ops, Op{Kind: "del", Filter: f})
+			}
+			g.hit("transition:mutate-through-index")
+		case 5: // an unrelated field of one document, wherever it stands
+			ops = append(ops, Op{Kind: "upd", Filter: byID, Update: NewMap(S("$set"), NewMap(S("n"), iv(rng.Range(0, 3))))})
+			g.hit("transition:unrelated-field")
+		case 6: // one document leaves by id
+			ops = append(ops, Op{Kind: "del", Filter: byID})
+			g.hit("transition:delete-by-id")
+		default:
+			n++
+			ops = append(ops, Op{Kind: "ins", Docs: []Map{doc(n)}})
+			g.hit("transition:insert-late")
+		}
+		probe()
+		if rng.Chance(1, 3) {
+			ops = append(ops, Op{Kind: "find"})
+		}
+	}
+	if rng.Chance(1, 4) {
+		at = rng.Intn(len(ops))
+	}
+	return ops, idx, at
+}
